@@ -144,6 +144,17 @@ def _impl(sc):
                 except Exception as e:
                     rec['repeat_noop'] = 'error: ' + type(e).__name__
             out['routes'][route] = rec
+        # skipped lexicons are skipped as a whole: same tables as adding the resource without them
+        keep = sc.get('kept')
+        if keep is not None:
+            wnenv.fresh_db()
+            if sc.get('pre') is not None:
+                wn.add(d / 'pre0.xml', progress_handler=None)
+            if keep['lexicons']:
+                fk = d / 'kept.xml'
+                fk.write_text(docs.to_xml(keep), encoding='utf-8')
+                wn.add(fk, progress_handler=None)
+            out['kept_dump'] = hashlib.sha256(json.dumps(c06.dump(wn._db.connect()), sort_keys=True).encode()).hexdigest()
         # file trees for the dispatch model
         out['trees'] = []
         for j, tree in enumerate(sc.get('trees', [])):
@@ -264,7 +275,12 @@ def gen(rng):
     routes = ['xml'] + rng.sample(ROUTES[1:], 5)
     if 'mem' not in routes:
         routes[-1] = 'mem'
-    return {'res': res, 'pre': pre, 'routes': routes, 'kind': kind, 'trees': [gen_tree(rng) for _ in range(6)]}
+    sc = {'res': res, 'pre': pre, 'routes': routes, 'kind': kind, 'trees': [gen_tree(rng) for _ in range(6)]}
+    inst = set(expected_installed(sc)) - {f"{lx['id']}:{lx['version']}" for lx in (pre['lexicons'] if pre else [])}
+    kept = [lx for lx in res['lexicons'] if f"{lx['id']}:{lx['version']}" in inst]
+    if len(kept) != len(res['lexicons']):
+        sc['kept'] = docs.resource(kept, res['lmf_version'])
+    return sc
 
 
 def expected_installed(sc):
@@ -309,6 +325,8 @@ def judge(ctx, sc, im, tree_models):
             ctx.fail('adding-again-changes-nothing', small, dict(where, got=rec.get('repeat_noop')))
         if rec.get('readd_same_object_noop') is False:
             ctx.fail('adding-the-same-in-memory-resource-again-changes-nothing', small, where)
+    if 'kept_dump' in im and ref.get('ok') and im['kept_dump'] != ref['dump']:
+        ctx.fail('skipped-lexicons-leave-no-trace(same-tables-as-the-resource-without-them)', small, {'route': 'xml'})
     for tree, got, mo in zip(sc.get('trees', []), im.get('trees', []), tree_models):
         ctx.case(None)
         ctx.dist['file-trees'] += 1
